@@ -76,6 +76,26 @@ func featureSeq(w *mon.W, id, parent string, loc poly.Location) (string, string)
 	return got, p
 }
 
+// featureTableLocation returns the location text of the first feature of a GenBank text: columns 22.. of the
+// feature line and of the continuation lines up to the first qualifier.
+func featureTableLocation(text string) string {
+	lines := strings.Split(text, "\n")
+	var sb strings.Builder
+	in := false
+	for _, ln := range lines {
+		switch {
+		case !in && strings.HasPrefix(ln, "     ") && len(ln) > 21 && ln[5] != ' ':
+			in = true
+			sb.WriteString(strings.TrimSpace(ln[21:]))
+		case in && strings.HasPrefix(ln, strings.Repeat(" ", 21)) && !strings.HasPrefix(strings.TrimSpace(ln), "/"):
+			sb.WriteString(strings.TrimSpace(ln))
+		case in:
+			return sb.String()
+		}
+	}
+	return sb.String()
+}
+
 var k2Rewrite = regexp.MustCompile(`(\d+)\.\.(\d+)>`)
 
 // wrapLocation breaks a location text after commas so that no line exceeds width.
@@ -246,6 +266,40 @@ func c02Judge(w *mon.W, id string, x *oracle.Loc, parent string, viaParse bool) 
 		}
 		if !oracle.SameLeaves(y.Normalize(), xn) {
 			w.Violation(id, fmt.Sprintf("%s for %s is written as %q, which denotes different bases or partial ends", b.name, clip(text, 160), clip(out, 160)), rep)
+		}
+	}
+	// (v) the same through genbank.Build: the location text of the feature table (wrapped over several lines
+	// when it is long) must be valid INSDC syntax for the same leaves
+	if viaParse || len(text) > 50 {
+		for _, b := range structs {
+			var seq poly.Sequence
+			seq.Sequence = parent
+			seq.Meta.Locus = poly.Locus{Name: "x", SequenceLength: fmt.Sprint(len(parent)), MoleculeType: "DNA", GenbankDivision: "SYN", ModificationDate: "01-JAN-2020", SequenceCoding: "bp", Linear: true}
+			f := poly.Feature{Type: "misc_feature", SequenceLocation: b.loc, Attributes: map[string]string{"note": "x"}}
+			seq.AddFeature(&f)
+			var out []byte
+			if p := mon.Try(func() { out = genbank.Build(seq) }); p != "" {
+				w.Violation(id, fmt.Sprintf("genbank.Build of a record whose feature has %s for %s: %s", b.name, clip(text, 160), p), rep)
+				continue
+			}
+			written := featureTableLocation(string(out))
+			w.Add("locations_written_by_Build", 1)
+			if len(written) > 58 {
+				w.Add("locations_written_by_Build_over_several_lines", 1)
+			}
+			y, e := oracle.ParseLocStrict(written)
+			if e != nil {
+				fixed := k2Rewrite.ReplaceAllString(written, "$1..>$2")
+				if y2, e2 := oracle.ParseLocStrict(fixed); fixed != written && e2 == nil && oracle.SameLeaves(y2.Normalize(), xn) {
+					w.Known("three-prime-partial-syntax", id, fmt.Sprintf("location %s is written by Build as %q", clip(text, 100), clip(written, 100)))
+					continue
+				}
+				w.Violation(id, fmt.Sprintf("%s for %s is written by genbank.Build as %q, which is not valid INSDC syntax: %v", b.name, clip(text, 160), clip(written, 200), e), rep)
+				continue
+			}
+			if !oracle.SameLeaves(y.Normalize(), xn) {
+				w.Violation(id, fmt.Sprintf("%s for %s is written by genbank.Build as %q, which denotes different bases or partial ends", b.name, clip(text, 160), clip(written, 200)), rep)
+			}
 		}
 	}
 	// (iv) writing must not alter the structure: same bases and same text afterwards
